@@ -112,13 +112,13 @@ func evaluateCondition(skel *Skeleton, orig []byte, cond *Condition) error {
 	case CondNotEqual:
 		met = cmp != 0
 	case CondGreaterThan:
-		met = cmp > 0
+		met = cmp == 1
 	case CondGreaterThanOrEqual:
-		met = cmp >= 0
+		met = cmp == 0 || cmp == 1
 	case CondLessThan:
-		met = cmp < 0
+		met = cmp == -1
 	case CondLessThanOrEqual:
-		met = cmp <= 0
+		met = cmp == 0 || cmp == -1
 	default:
 		return fmt.Errorf("%w: unknown condition op %d", ErrInvalidOp, cond.Op)
 	}
@@ -127,6 +127,11 @@ func evaluateCondition(skel *Skeleton, orig []byte, cond *Condition) error {
 	}
 	return nil
 }
+
+// cmpUnordered is returned by compareLeafBytes when either operand is a float
+// NaN: NaN is neither less than, equal to, nor greater than anything, so only
+// NOT_EQUAL holds.
+const cmpUnordered = 2
 
 // compareLeafBytes returns -1 / 0 / 1 for a < b, a == b, a > b. Numeric
 // comparisons are class-aware; string / bytes use byte-wise comparison; bool
@@ -216,6 +221,8 @@ func cmpUint64(a, b uint64) int {
 
 func cmpFloat64(a, b float64) int {
 	switch {
+	case a != a || b != b: // NaN
+		return cmpUnordered
 	case a < b:
 		return -1
 	case a > b:
